@@ -165,6 +165,335 @@ def cold_start(out, seed, tier):
             break
 
 
+# ---------------------------------------------------------------------------
+# timed audit: WHEN every event happens (while the package is read / while the document is converted / inside the image
+# converter's own open()), for pictures of realistic sizes and for pictures that are embedded AND linked
+# ---------------------------------------------------------------------------
+TIMED = []
+PHASE = ["idle"]
+ARMED2 = [False]
+_INSTALLED2 = [False]
+WATCH2 = WATCH + ("tempfile.mkstemp", "tempfile.mkdtemp", "os.mkdir", "os.remove", "os.rename", "os.rmdir", "os.truncate", "os.chdir", "os.link", "os.symlink",
+                  "os.system", "os.exec", "os.posix_spawn", "os.fork", "os.startfile", "shutil.copyfile", "shutil.copytree", "shutil.move", "shutil.rmtree",
+                  "shutil.make_archive", "shutil.unpack_archive", "glob.glob", "glob.glob/2", "pathlib.Path.glob", "pathlib.Path.rglob", "mmap.__new__",
+                  "socket.__new__", "socket.bind", "socket.sendto", "socket.gethostbyaddr", "webbrowser.open", "urllib.Request")
+NETWORK = ("socket.", "http.client.", "ftplib.")
+
+
+def hook2(event, args):
+    if ARMED2[0] and event in WATCH2:
+        a0 = args[0] if args else None
+        if event == "open" and isinstance(a0, str) and (a0.startswith(sys.base_prefix) or a0.endswith(".pyc")):
+            return      # the interpreter importing a module, not the library reading data
+        TIMED.append((PHASE[0], event, tuple(repr(a)[:200] for a in args[:2])))
+
+
+def audited(fobj, kw=None, raw=False):
+    """one conversion (or raw-text extraction) under the audit -> (result | None, exception | None, [(phase, event, args)]).
+    The phase is told by the public API only: `transform_document` is called by the library exactly between reading the
+    package and converting the document, and the harness's own image converter marks the span of its `image.open()`."""
+    import mammoth
+    if not _INSTALLED2[0]:
+        sys.addaudithook(hook2)
+        _INSTALLED2[0] = True
+
+    def mark(document):
+        PHASE[0] = "convert"
+        return document
+    del TIMED[:]
+    PHASE[0] = "read"
+    ARMED2[0] = True
+    try:
+        try:
+            r = mammoth.extract_raw_text(fobj) if raw else mammoth.convert_to_html(fobj, transform_document=mark, **(kw or {}))
+            err = None
+        except Exception as e:  # noqa
+            r, err = None, e
+    finally:
+        ARMED2[0] = False
+        PHASE[0] = "idle"
+    return r, err, list(TIMED)
+
+
+def timed_converter(spec, log):
+    """the image converter of docx.make_image_converter (same attributes, so that the Lean model's value applies), which
+    additionally marks the span of its own image.open() ... read() and keeps the bytes it was given"""
+    import mammoth
+
+    def f(image):
+        attrs = dict((k, v) for k, v in spec["attrs"])
+        entry = {"ct": image.content_type}
+        if spec.get("open"):
+            saved = PHASE[0]
+            PHASE[0] = "converter-open"
+            try:
+                with image.open() as fh:
+                    data = fh.read()
+            finally:
+                PHASE[0] = saved
+            entry["data"] = data
+            attrs["data-len"] = str(len(data))
+        log.append(entry)
+        return attrs
+    return mammoth.images.img_element(f)
+
+
+def compact_parts(parts):
+    """large media of a replay written as (block, length) instead of megabytes of hex"""
+    out = []
+    for p in parts:
+        h = p.get("hex")
+        if h is not None and len(h) > 8192:
+            data = bytes.fromhex(h)
+            for k in (1, 61, 251):
+                if (data[:k] * (len(data) // k + 1))[:len(data)] == data:
+                    p = {"name": p["name"], "length": len(data), "repeat_hex": data[:k].hex(), "note": "content = repeat_hex repeated and cut to `length` bytes"}
+                    break
+        out.append(p)
+    return out
+
+
+LINK_KINDS = ["rel", "rel", "missing", "abs-file", "abs-missing", "url"]
+
+
+def link_target(rng, kind, k, canary_dir):
+    if kind == "rel":
+        return "pics/img%d.png" % rng.randrange(3)
+    if kind == "missing":
+        return "pics/missing%d.png" % k
+    if kind == "abs-file":
+        return "file://" + os.path.join(canary_dir, "pics", "img%d.png" % rng.randrange(3))
+    if kind == "abs-missing":
+        return "file:///no/such/dir%d/decoy%d.png" % (k, k % 3)
+    return "http://127.0.0.1:9/img%d.png" % k
+
+
+def pictures_doc(rng, canary_dir, big=0.4, limit=300000):
+    """one picture per paragraph (body, table cell or footnote).  Every picture is embedded (a:blip r:embed, v:imagedata
+    r:id; a few bytes or up to `limit` bytes), linked (a:blip r:link; relative existing / missing, absolute file / missing,
+    URL), or BOTH ("Insert and Link": r:embed and r:link on one blip, r:id and r:href on one v:imagedata) - then the
+    embedded copy is the picture and the link target must not be touched, whatever it is.  Unreferenced external
+    relationships (image, template, OLE link, hyperlink) point at the canary files."""
+    from gen_docx import big_bytes
+    n = rng.randint(1, 4)
+    pics, rels, parts, paras = [], [], [], []
+    n_note = rng.randint(1, n) if rng.random() < 0.25 else 0
+
+    def ext_rel(rid, target, type_=REL + "image"):
+        rels.append([rid, type_, target] + (["External"] if rng.random() < 0.6 else []))
+
+    for k in range(n):
+        how = rng.choice(["embedded", "embedded", "linked", "linked", "both", "both", "vml", "vml-both"])
+        pic = {"how": how, "link": None, "target": None, "data": None, "where": "note" if k >= n - n_note else "body"}
+        if how != "linked":
+            data = big_bytes(rng, limit) if rng.random() < big else bytes(rng.randrange(256) for _ in range(rng.choice([0, 1, 3, 17, 300])))
+            pic["data"] = data
+            parts.append({"name": "word/media/p%d.png" % k, "hex": data.hex()})
+            rels.append(["rIdE%d" % k, REL + "image", "media/p%d.png" % k])
+        if how in ("linked", "both", "vml-both"):
+            pic["link"] = rng.choice(LINK_KINDS)
+            pic["target"] = link_target(rng, pic["link"], k, canary_dir)
+            ext_rel("rIdL%d" % k, pic["target"])
+        if how in ("vml", "vml-both"):
+            attrs = [("r:id", "rIdE%d" % k)]
+            if how == "vml-both":
+                attrs += [(rng.choice(["r:href", "o:href"]), "rIdL%d" % k)]
+            shape = el("w:pict", [], [el("v:shape", [], [el("v:imagedata", attrs)])])
+        else:
+            attrs = ([("r:embed", "rIdE%d" % k)] if how in ("embedded", "both") else []) + ([("r:link", "rIdL%d" % k)] if how in ("linked", "both") else [])
+            if rng.random() < 0.5:
+                attrs.reverse()
+            blip = el("a:blip", attrs)
+            shape = el("w:drawing", [], [el(rng.choice(["wp:inline", "wp:anchor"]), [], [el("a:graphic", [], [el("a:graphicData", [], [el("pic:pic", [], [el("pic:blipFill", [], [blip])])])])])])
+        pics.append(pic)
+        paras.append((pic["where"], el("w:p", [], [el("w:r", [], [el("w:t", [], ["t%d" % k])]), el("w:r", [], [shape])])))
+    for j in range(rng.choice([0, 0, 1, 2])):
+        ext_rel("rIdDecoy%d" % j, rng.choice(["file://" + os.path.join(canary_dir, "canary.txt"), "canary.txt", "http://127.0.0.1:9/evil.txt"]),
+                REL + rng.choice(["image", "attachedTemplate", "oleObject", "hyperlink", "aFChunk"]))
+    body = [p for w, p in paras if w == "body"]
+    if body and rng.random() < 0.25:
+        cut = rng.randint(0, len(body) - 1)
+        body = body[:cut] + [el("w:tbl", [], [el("w:tr", [], [el("w:tc", [], body[cut:])])])]
+    rels_xml = el("relationships:Relationships", [], [el("relationships:Relationship", [("Id", r[0]), ("Type", r[1]), ("Target", r[2])] + ([("TargetMode", r[3])] if len(r) > 3 else []))
+                                                      for r in rels])
+    if n_note:
+        body.insert(rng.randint(0, len(body)), el("w:p", [], [el("w:r", [], [el("w:footnoteReference", [("w:id", "2")])])]))
+        parts.append({"name": "word/footnotes.xml", "xml": el("w:footnotes", [], [el("w:footnote", [("w:id", "2")], [p for w, p in paras if w == "note"])])})
+        parts.append({"name": "word/_rels/footnotes.xml.rels", "xml": rels_xml})
+    parts.append({"name": "word/document.xml", "xml": el("w:document", [], [el("w:body", [], body)])})
+    parts.append({"name": "word/_rels/document.xml.rels", "xml": rels_xml})
+    parts.append({"name": "[Content_Types].xml", "xml": el("content-types:Types", [], [el("content-types:Default", [("Extension", "png"), ("ContentType", "image/png")])])})
+    return parts, pics
+
+
+def allowed_io(pics, named, opens, base):
+    """what the statement allows, from the generator's own knowledge of the document: the ordered file / URL events
+    (`optional`: the failing attempt on a missing absolute file), the warnings, and the bytes every picture delivers"""
+    events, warns, delivered = [], [], []
+    for p in [p for p in pics if p["where"] == "body"] + [p for p in pics if p["where"] == "note"]:
+        if p["how"] != "linked":
+            delivered.append(p["data"])     # embedded, or embedded and linked: the embedded copy, no outside access
+            continue
+        if not opens:
+            delivered.append(None)
+            continue
+        kind, target = p["link"], p["target"]
+        linked_bytes = bytes([9, int(target[-5]), 9]) if kind == "abs-file" or (kind == "rel" and named) else None
+        delivered.append(linked_bytes)
+        if kind in ("rel", "missing"):
+            if named:
+                events.append(("open", os.path.join(base, target), False))
+                if kind == "missing":
+                    warns.append(("could not open external image", target))
+            else:
+                warns.append(("fileobj has no name", target))
+        elif kind in ("abs-file", "abs-missing"):
+            events.append(("urllib.Request", target, False))
+            events.append(("open", target[len("file://"):], kind == "abs-missing"))
+            if kind == "abs-missing":
+                warns.append(("could not open external image", target))
+        else:
+            events.append(("urllib.Request", target, False))
+            warns.append(("could not open external image", target))
+    return events, warns, delivered
+
+
+def judge_events(events, allowed, own_converter):
+    """events: [(phase, event, args)] of one conversion; allowed: [(event, argument, optional)] in order"""
+    probs = []
+    want_phase = "converter-open" if own_converter else "convert"
+    network_ok = any(ev == "urllib.Request" and not a.startswith("file:") for ev, a, _o in allowed)
+    i = 0
+    for phase, ev, args in events:
+        txt = " ".join(args)
+        if "canary" in txt or "evil" in txt:
+            probs.append("something the document does not use as a picture was fetched (%s): %s %s" % (phase, ev, txt))
+        elif ev in ("open", "urllib.Request"):
+            while i < len(allowed) and allowed[i][2] and not (allowed[i][0] == ev and repr(allowed[i][1]) == args[0]):
+                i += 1
+            if i < len(allowed) and allowed[i][0] == ev and repr(allowed[i][1]) == args[0]:
+                i += 1
+                if phase != want_phase:
+                    probs.append("a linked image was fetched at another moment than when the image converter opens it (phase %r, expected %r): %s %s" % (phase, want_phase, ev, txt))
+            elif ev == "open":
+                probs.append("opened a file that is not (or not now) a linked image the converter opens (phase %r): %s" % (phase, txt))
+            else:
+                probs.append("requested a URL that is not (or not now) a linked image the converter opens (phase %r): %s" % (phase, txt))
+        elif ev.startswith(NETWORK):
+            if not network_ok or phase != want_phase:
+                probs.append("network activity (phase %r): %s %s" % (phase, ev, txt))
+        else:
+            probs.append("touched the outside world (phase %r): %s %s" % (phase, ev, txt))
+    for ev, a, optional in allowed[i:]:
+        if not optional:
+            probs.append("a linked image the converter opens was not fetched: %s %s" % (ev, a))
+    return probs
+
+
+def timed_audit(out, tier, seed, model_ok, base):
+    import base64
+    import re
+    rng = random.Random(seed * 104729 + 1806)
+    n = common.deepen(160 if tier == "quick" else 1600)
+    n_general = n // 3
+    lines, meta = [], []
+    stats = {}
+    for i in range(n + n_general):
+        general = i >= n
+        limit = 300000 if tier == "quick" else 1200000
+        if rng.random() < (0.04 if tier == "quick" else 0.1):
+            limit = 1200000 if tier == "quick" else 4200000
+        if general:
+            # the whole grammar (pictures in tables, notes, comments, text boxes, alternate content), many of them large
+            g, parts, opts = C.api_case(seed * 1000003 + 500000 + i, dict(p_linked_image=0.0, p_image=0.7, p_note=0.2, p_comment=0.1, p_textbox=0.1, p_table=0.2,
+                                                                          big_media=0.5, big_media_max=limit))
+            pics = []
+            if not g.media:
+                continue
+        else:
+            parts, pics = pictures_doc(rng, base, limit=limit)
+            opts = {}
+        named = rng.random() < 0.6
+        conv = rng.choice([None, None, {"kind": "fixed", "attrs": [["src", "x"]], "open": False}, {"kind": "fixed", "attrs": [["src", "x"]], "open": True}])
+        data = build(parts, base, rng)
+
+        def fobj():
+            f = io.BytesIO(data)
+            if named:
+                f.name = os.path.join(base, "input.docx")
+            return f
+        log = []
+        kw = D.real_options(opts, [])
+        if conv:
+            opts = dict(opts, imageConv=conv)
+            kw["convert_image"] = timed_converter(conv, log)
+        opens = conv is None or conv.get("open")
+        r, err, events = audited(fobj(), kw)
+        _r2, err2, raw_events = audited(fobj(), raw=True)
+        sizes = [len(p["hex"]) // 2 for p in parts if "hex" in p]
+        for p in pics:
+            k = p["how"] + ("-" + p["link"] if p["link"] else "") + ("-big" if p["data"] is not None and len(p["data"]) > 65536 else "")
+            stats[k] = stats.get(k, 0) + 1
+        if general and max(sizes or [0]) > 65536:
+            stats["general-big"] = stats.get("general-big", 0) + 1
+        out.count(key="timed-%d-%d" % (seed, i), nontrivial=bool(pics) or max(sizes or [0]) > 65536)
+        case = {"kind": "io-timed", "parts": compact_parts(parts), "options": opts, "named": named,
+                "pictures": [dict(p, data=None if p["data"] is None else len(p["data"])) for p in pics]}
+        if err is not None:
+            if not general:
+                out.violation("conversion raised %s instead of reporting a warning" % type(err).__name__, case, actual=repr(err)[:300])
+            continue
+        allowed, warns, delivered = allowed_io(pics, named, opens, base)
+        probs = judge_events(events, allowed, bool(conv))
+        probs += ["extracting the raw text (no image converter at all): " + p for p in judge_events(raw_events, [], False)]
+        msgs = [m.message for m in r.messages]
+        if not general:
+            for what, target in warns:
+                if not any(what in m and target in m for m in msgs):
+                    probs.append("a linked image that cannot be opened (%s) did not yield the warning '%s ...'" % (target, what))
+            if len(msgs) != len(set(warns)):
+                probs.append("messages other than the warnings of the unopenable linked images: %r" % msgs[:4])
+            if conv is None:
+                got = re.findall(r'<img[^>]* src="([^"]*)"', r.value)
+                want = ["data:image/png;base64," + base64.b64encode(d).decode("ascii") for d in delivered if d is not None]
+                if got != want:
+                    probs.append("the pictures written are not the embedded copies / the linked files, in order: %d pictures, expected %d; first difference at %s" % (
+                        len(got), len(want), next((j for j, (a, b) in enumerate(zip(got, want)) if a != b), min(len(got), len(want)))))
+            elif conv.get("open"):
+                if [e["data"] for e in log] != [d for d in delivered if d is not None]:
+                    probs.append("the bytes handed to the image converter are not the embedded copies / the linked files, in order (lengths %s, expected %s)" % (
+                        [len(e["data"]) for e in log], [len(d) for d in delivered if d is not None]))
+            elif len(log) != len(pics):
+                probs.append("the image converter was called %d times for %d pictures" % (len(log), len(pics)))
+        if probs:
+            out.violation("; ".join(probs[:3]), case, expected=[list(a) for a in allowed], actual=[list(e) for e in events[:10]] + [["raw-text"] + list(e) for e in raw_events[:5]])
+        if model_ok and sum(sizes) < 600000:
+            world = []
+            for k in range(3):
+                world.append([os.path.join(base, "pics", "img%d.png" % k), bytes([9, k, 9]).hex()])
+                world.append(["file://" + os.path.join(base, "pics", "img%d.png" % k), bytes([9, k, 9]).hex()])
+            lines.append({"op": "api", "parts": parts, "options": opts, "base": base if named else None, "world": world})
+            meta.append((case, r.value, A.norm_messages(msgs), [(e, a) for _ph, e, a in events if e in ("open", "urllib.Request")]))
+    if lines:
+        for (case, value, msgs, events), m in zip(meta, run_driver(lines, tag="iot")):
+            if "error" in m or "err" in m:
+                out.correspondence_breaks.append("io model (timed audit): %s" % (m.get("error") or m.get("err")))
+                continue
+            want = [("open" if kind == "open" else "urllib.Request", repr(tgt)) for kind, tgt in m["io"]]
+            got, prev = [], None
+            for e, a in events:
+                if e == "open" and prev == ("urllib.Request", repr("file://" + a[0].strip("'"))):
+                    prev = None         # urlopen of a file: URL opening that very file (one access of the model)
+                    continue
+                prev = (e, a[0])
+                got.append(prev)
+            if got != want or m["value"] != value or m["messages"] != msgs:
+                which = "io" if got != want else ("messages" if m["messages"] != msgs else "value")
+                out.violation("external reads / result differ from the ioTrace specification (%s)" % which, case,
+                              expected={"io": want, "messages": m["messages"], "value": m["value"][:300]}, actual={"io": got, "messages": msgs, "value": value[:300]})
+    out.extra["timed_audit"] = stats
+
+
 def run(out, tier, seed, model_ok):
     import mammoth
     install()
@@ -296,6 +625,7 @@ def run(out, tier, seed, model_ok):
             got = [(e, a[0]) for e, a in events if not (e == "open" and any(w[0] == "urllib.Request" and w[1] == repr("file://" + a[0].strip("'")) for w in want))]
             if got != want or m["value"] != value or m["messages"] != msgs:
                 out.violation("external reads / result differ from the ioTrace specification", case, expected={"io": want, "messages": m["messages"]}, actual={"io": got, "messages": msgs})
+    timed_audit(out, tier, seed, model_ok, base)
     cold_start(out, seed, tier)
     import shutil
     shutil.rmtree(base, ignore_errors=True)
